@@ -954,6 +954,8 @@ class Checksums(productmd.common.MetadataBase):
                         checksum_type, checksum = "sha1", value
                     elif len(value) == 64:
                         checksum_type, checksum = "sha256", value
+                    else:
+                        raise ValueError("Unknown checksum type for %s: %s" % (path, value))
                 else:
                     checksum_type, checksum = value.split(":")
                 self.checksums[path] = (checksum_type, checksum)
